@@ -10,8 +10,8 @@ from ..core import frac, floats
 
 ID = "C05"
 THREADS = True       # part of the cases run concurrently in threads of one interpreter (the schedule dimension)
-MODULES = ["TWV.Properties.RfaImp", "TWV.Tie.RfaLoops", "TWV.Properties.C05", "TWV.Properties.C05Run", "TWV.Tie.Funfit"]
-TRANSLATORS = ["t4_rfaloops", "t1_funfit"]
+MODULES = ["TWV.Properties.RfaImp", "TWV.Tie.RfaLoops", "TWV.Properties.C05", "TWV.Properties.C05Run", "TWV.Tie.Funfit", "TWV.Tie.RfaParams"]
+TRANSLATORS = ["t4_rfaloops", "t1_funfit", "t12_rfaparams"]
 RULE = ("random cases over the four window strategies (70%) and pc / cubic (30%): series with many ties between neighbouring "
         "averages (values from a small alphabet) and constant series, uniform / non-uniform, integer / float x, n in 2..24 "
         "(thorough ..64), alpha dyadic in (0,1] or explicit a in 0..n, beta in [0,1], exp in {1,2,3} exact and "
